@@ -21,6 +21,9 @@ def run(ctx, crate):
     D.rule_hidden_builds_nothing(ctx, crate)
     rule_remove_hides(ctx, crate)
     rule_state_noninterference(ctx, crate)
+    # a bar put into a (hidden) MultiProgress always gets that MultiProgress as its draw target
+    from .c02 import rule_slot_identity
+    rule_slot_identity(ctx, crate)
 
 
 def rule_remove_hides(ctx, crate, rule="R-REMOVE-HIDES"):
